@@ -16,7 +16,10 @@ RULE = (
     "1-6 bases placed 1-7 bases next to SNVs), reads = exact haplotype "
     "copies decorated by G-cigar: soft and hard clips, =/X instead of M, N skips over variants, unrelated I/D, read ends anywhere "
     "a valid CIGAR allows (variants at the first/last aligned base, ends inside MNPs), variants a few bases from the contig ends "
-    "(window truncated), single reads / overlapping or disjoint mates; run through whatshap.variants.ReadSetReader.read(chromosome, "
+    "(window truncated), single reads / overlapping or disjoint mates, the sample's reads spread over 1-3 BAM files whose read "
+    "names recur, a tenth of the VCFs with REF/ALT in lower case; lane 'mav': multi-allelic SNV records (2-3 ALT alleles, '*' "
+    "listed among them anywhere, ploidy 2-4, VcfReader(mav=True)) where the recorded allele index must be the index of the carried "
+    "base in the record's own ALT order; run through whatshap.variants.ReadSetReader.read(chromosome, "
     "variants, sample, reference) with the reference (re-alignment) and with reference=None (CIGAR based; then only SNVs and "
     "unshiftable indels are generated). Oracle O-alleles by construction: per (fragment, variant): 'fully covered' = some aligned "
     "block contains the footprint extended by its shift range plus one base on each side -> recorded allele must be the "
@@ -36,8 +39,8 @@ WATCHDOG = {"quick": 300, "thorough": 900}
 
 def lanes(tier):
     if tier == "quick":
-        return [("plain", "plain", 240), ("san", "san", 48)]
-    return [("plain", "plain", 16000), ("san", "san", 2000), ("vg-san", "vg", 16)]
+        return [("plain", "plain", 240), ("mav", "plain", 48), ("san", "san", 48)]
+    return [("plain", "plain", 16000), ("mav", "plain", 3000), ("san", "san", 2000), ("vg-san", "vg", 16)]
 
 
 def blocks_of(start, cig, lead_ins=True):
@@ -132,10 +135,22 @@ def run_one(rng, counters):
             "companion_kinds": (("snv",) if rng.random() < 0.7 else ("snv", "ins", "del", "mnp")) if use_ref else ("snv", "ins", "del"),
             "companion_max_len": rng.choice([6, 6, 13]),
             "covering_deletions": rng.choice([0.0, 0.0, 0.3]),
+            # the sample's reads come from several files (sequencing runs) that each number their reads from 0
+            "split_bams": rng.choice([0, 0, 0, 2, 3]),
         }
         sim = genome.simulate(rng, tmp, p)
         desc = {"params": p, "use_ref": use_ref}
         c = "chr1"
+        if rng.random() < 0.12:
+            # REF/ALT written in lower case (VCF bases are case-insensitive; soft-masked references produce such records)
+            every = rng.random() < 0.5
+            for r in sim.doc.records:
+                if every or rng.random() < 0.5:
+                    r["ref"] = r["ref"].lower()
+                    r["alts"] = [a.lower() for a in r["alts"]]
+            sim.doc.write(sim.vcf)
+            desc["lower_case_alleles"] = True
+            counters["reader_calls_lower_case_vcf"] = counters.get("reader_calls_lower_case_vcf", 0) + 1
         rd = VcfReader(sim.vcf)
         tables = list(rd)
         rd.close()
@@ -145,7 +160,7 @@ def run_one(rng, counters):
         nsi = NumericSampleIds()
         if not sim.reads:
             return [], set(), desc
-        reader = ReadSetReader([sim.bams[0]], None, nsi)
+        reader = ReadSetReader(list(sim.bams), None, nsi)
         try:
             rs = reader.read(c, variants, "sampleA", sim.ref[c] if use_ref else None)
         except Exception:
@@ -154,7 +169,9 @@ def run_one(rng, counters):
         counters["reader_calls"] = counters.get("reader_calls", 0) + 1
         got = {}
         for r in rs:
-            got[r.name] = {v.position: (v.allele, v.quality) for v in r}
+            got[(r.source_id, r.name)] = {v.position: (v.allele, v.quality) for v in r}
+        if len(sim.bams) > 1:
+            counters["reader_calls_with_several_files"] = counters.get("reader_calls_with_several_files", 0) + 1
         frags = {}
         for r in sim.reads:
             frags.setdefault(r["name"], []).append(r)
@@ -169,7 +186,7 @@ def run_one(rng, counters):
             h = parts[0]["hap"]
             allblocks = [(pt, b) for pt in parts for b in blocks_of(pt["start"], pt["cigar"])]
             strict = [b for pt in parts for b in blocks_of(pt["start"], pt["cigar"], lead_ins=False)]
-            rec = got.get(name, {})
+            rec = got.get((sim.bam_of.get(name, 0), sim.bam_names.get(name, name)), {})
             for i, v in vis:
                 truth = sim.haps[c]["sampleA"][h][i]
                 npos = v.pos  # reads are keyed by the VCF position of the variant
@@ -227,12 +244,97 @@ def run_one(rng, counters):
                         viol.append({"mech": "missing-allele:ins:edge", "msg": "fragment %s (alignments %r) ends with the anchor and all inserted bases of %r but no allele was recorded (with reference)" % (
                             name, [(pt["start"], pt["cigar"]) for pt in parts], v.as_list())})
                     if r_ is not None and r_[0] == 0:
-                        viol.append({"mech": "wrong-allele:ins:edge" + (":noref" if not use_ref else ""),
+                        # next to an unrelated indel the window comparison is ambiguous here as well (same known finding as for
+                        # fully covered indel variants)
+                        viol.append({"mech": "wrong-allele:ins:unrelated-indel-in-realignment-window" if (use_ref and i in crowded) else "wrong-allele:ins:edge" + (":noref" if not use_ref else ""),
                                      "msg": "fragment %s (alignments %r) begins/ends with the inserted bases of %r but allele REF was recorded %r" % (name, [(pt["start"], pt["cigar"]) for pt in parts], v.as_list(), r_)})
                 else:
                     counters["pairs_partial_not_judged"] = counters.get("pairs_partial_not_judged", 0) + 1
                     if r_ is not None and r_[0] != truth:
                         counters["pairs_partial_wrong"] = counters.get("pairs_partial_wrong", 0) + 1
+        seen = set()
+        viol = [x for x in viol if not (x["mech"] in seen or seen.add(x["mech"]))]
+        return viol, keys, desc
+    finally:
+        shutil.rmtree(tmp, ignore_errors=True)
+
+
+def run_mav(rng, counters):
+    """Multi-allelic SNV records (as polyphase / haplotagphase read them, VcfReader(mav=True)): two or three ALT alleles, the
+    spanning-deletion placeholder '*' listed among them at any place. Error-free ungapped reads of 2-4 haplotypes; the allele
+    index recorded for a read covering the site must be the index (in the record's own ALT order) of the base it carries."""
+    from whatshap.core import NumericSampleIds
+    from whatshap.variants import ReadSetReader
+    from whatshap.vcf import VcfReader
+
+    tmp = tempfile.mkdtemp(prefix="c06m-", dir=os.environ.get("WV_SCRATCH"))
+    try:
+        P = rng.choice([2, 2, 3, 4])
+        use_ref = rng.random() < 0.7
+        p = {"ploidy": P, "n_chrom": 1, "chrom_len": rng.choice([800, 2000]), "n_var": rng.randint(4, 18), "samples": ["sampleA"], "depth": rng.choice([3, 6]),
+             "read_len": rng.choice([(60, 200), (150, 500)]), "error_rate": 0.0, "multiallelic": rng.choice([0.5, 1.0]), "paired": rng.choice([0.0, 0.5]), "min_gap": 25}
+        sim = genome.simulate_poly(rng, tmp, p)
+        c = "chr1"
+        # put '*' into some ALT lists; star[i] = index (0-based among ALTs) at which it was inserted
+        star = {}
+        for r, v in zip(sim.doc.records, sim.variants[c]):
+            if rng.random() < 0.4:
+                k = rng.randint(0, len(r["alts"]))
+                star[v["pos"]] = k
+                r["alts"] = r["alts"][:k] + ["*"] + r["alts"][k:]
+                for call in r["calls"]:
+                    sep = "|" if "|" in call["GT"] else "/"
+                    call["GT"] = sep.join(x if x == "." or int(x) <= k else str(int(x) + 1) for x in call["GT"].split(sep))
+        sim.doc.write(sim.vcf)
+        desc = {"params": p, "use_ref": use_ref, "lane": "mav", "star_sites": len(star)}
+        rd = VcfReader(sim.vcf, mav=True, ploidy=P)
+        tables = list(rd)
+        rd.close()
+        if not tables or not sim.reads:
+            return [], set(), desc
+        variants = tables[0].variants
+        listed = {v.position for v in variants}
+        reader = ReadSetReader(list(sim.bams), None, NumericSampleIds())
+        try:
+            rs = reader.read(c, variants, "sampleA", sim.ref[c] if use_ref else None)
+        except Exception:
+            tb = traceback.format_exc()
+            return [{"mech": "crash:" + tb.strip().splitlines()[-1].split(":")[0], "msg": "ReadSetReader.read (mav) raised: " + tb[-1500:]}], set(), desc
+        counters["reader_calls"] = counters.get("reader_calls", 0) + 1
+        counters["reader_calls_mav"] = counters.get("reader_calls_mav", 0) + 1
+        got = {r.name: {v.position: v.allele for v in r} for r in rs}
+        frags = {}
+        for r in sim.reads:
+            frags.setdefault(r["name"], []).append(r)
+        viol, keys = [], set()
+        for name, parts in frags.items():
+            h = parts[0]["hap"]
+            rec = got.get(name, {})
+            for i, v in enumerate(sim.variants[c]):
+                if v["pos"] not in listed:
+                    continue
+                al = sim.haps[c]["sampleA"][h][i]
+                truth = al if (v["pos"] not in star or al <= star[v["pos"]]) else al + 1  # index in the record's own ALT order
+                cover = [pt for pt in parts if pt["start"] <= v["pos"] < pt["start"] + len(pt["seq"])]
+                inner = [pt for pt in cover if pt["start"] + 12 <= v["pos"] < pt["start"] + len(pt["seq"]) - 12]
+                r_ = rec.get(v["pos"])
+                if not cover:
+                    counters["pairs_not_overlapping"] = counters.get("pairs_not_overlapping", 0) + 1
+                    if r_ is not None:
+                        viol.append({"mech": "spurious-allele:snv:mav", "msg": "fragment %s does not overlap %r but allele %r was recorded" % (name, v, r_)})
+                    continue
+                counters["pairs_fully_covered"] = counters.get("pairs_fully_covered", 0) + 1
+                if r_ is None:
+                    counters["pairs_none"] = counters.get("pairs_none", 0) + 1
+                    if use_ref and inner and len(cover) == 1:
+                        viol.append({"mech": "missing-allele:snv:mav", "msg": "fragment %s covers multi-allelic %r (ALT order in the record %r, truth index %d): no allele recorded (with reference)" % (name, v, sim.doc.records[i]["alts"], truth)})
+                elif r_ != truth:
+                    viol.append({"mech": "wrong-allele:snv:mav" + (":star-listed" if v["pos"] in star else "") + ("" if use_ref else ":noref"),
+                                 "msg": "fragment %s is an exact copy of haplotype %d at %r (ALT order in the record %r): recorded allele index %r, truth %d" % (name, h, v, sim.doc.records[i]["alts"], r_, truth)})
+                else:
+                    counters["pairs_correct"] = counters.get("pairs_correct", 0) + 1
+                    if truth >= 2 or v["pos"] in star:
+                        keys.add("mav/%s/%d/%s" % ("ref" if use_ref else "noref", truth, "star" if v["pos"] in star else "plain"))
         seen = set()
         viol = [x for x in viol if not (x["mech"] in seen or seen.add(x["mech"]))]
         return viol, keys, desc
@@ -246,7 +348,7 @@ def run_case(idx, rng, tier, lane):
     viol = []
     sample = None
     for j in range(6 if lane == "plain" else 4):
-        v, ks, desc = run_one(rng, counters)
+        v, ks, desc = run_mav(rng, counters) if lane == "mav" else run_one(rng, counters)
         for x in v:
             x["data"] = desc
         viol += v
